@@ -9,11 +9,10 @@ RULE = ("prtpy.pack(bin_completion) with output types Partition, Sums, BinCount 
         "all-small, repeated values) with n <= 11; the three historic failing inputs of the property text. Every input is called with all output types. "
         "Non-trivial: >= 4 items and optimum >= 2 bins. Distinct by (port, params).")
 EXPLANATION = ("bin count compared with the Gallina model's and judged against the verified oracle min_bins (proved optimum) and the model's FFD/BFD counts; counts of the "
-               "same input under different output types compared with each other. Proved for all inputs: feasible packing, >= OPT, <= BFD, optimal when the volume bound is "
-               "met, same decisions for all output types; general optimality is tested (open statement).")
+               "same input under different output types compared with each other. Proved for all inputs (model): the count is the minimum over all feasible packings (bc_optimal), "
+               "same decisions for all output types.")
 ASSUMPTIONS = ["integer items 1 <= value <= binsize, integer bin size <= 2^30, list/array input (named input: known finding bc-named-items under C07)"]
-OPEN_STATEMENTS = ["bc_optimal : length (bin_completion C items) = min_bins C items -- NOT proved (depends on the completeness of the completion generator); "
-                   "tested against min_bins on every generated input (0 failures in 54 000 additional oracle comparisons at build time)"]
+OPEN_STATEMENTS = []
 CASE_TIMEOUT = 120
 OUTS = ["partition", "sums", "bincount", "pst"]
 HISTORIC = [(20, [4, 4, 8, 9, 9, 8, 7, 3, 4, 3]), (50, [19, 14, 4, 14, 24, 17, 20, 15, 20]), (20, [5, 10, 4, 10, 8, 6, 4, 10, 5, 4, 4, 10]),
